@@ -13,6 +13,8 @@ from __future__ import annotations
 
 import ast
 
+from sa.core import register_cache  # noqa: E402
+
 from sa.cfg import CFG
 from sa.core import AnalysisError, LiteralEvaluator, NotLiteral, attr_chain, enclosing, norm, parents, resolve_callee, walk_no_nested
 
@@ -67,7 +69,7 @@ def public_wrappers(p):
     return out
 
 
-_GENERATED = {}
+_GENERATED = register_cache({})
 
 
 def generated_wrappers(p, m):
@@ -76,8 +78,8 @@ def generated_wrappers(p, m):
     from sa.cfg import _clone, _set_parents
     from sa.core import Func
 
-    if id(p) in _GENERATED:
-        return _GENERATED[id(p)]
+    if "_generated_wrappers" in p.__dict__:
+        return p.__dict__["_generated_wrappers"]
     out = []
     for st in m.tree.body:
         if not (isinstance(st, ast.Assign) and len(st.targets) == 1 and isinstance(st.targets[0], ast.Name) and isinstance(st.value, ast.Call)):
@@ -126,7 +128,7 @@ def generated_wrappers(p, m):
         f = Func(qualname=f"{m.name}::{node.name}", module=m, node=node, cls=None, parent=None)
         p.func_of_node[id(node)] = f
         out.append(f)
-    _GENERATED[id(p)] = out
+    p.__dict__["_generated_wrappers"] = out
     return out
 
 
@@ -698,7 +700,7 @@ def r11(p, rep):
     rep.ok("C01.R11", "sweep", "einx/_src/frontend/impl", "all literal table entries and table unions of the seven factory modules inspected (tables filled by `table[name] = getattr(builders, name)(...)` agree by construction)")
 
 
-_FAM = {}
+_FAM = register_cache({})
 
 
 def _dict_keys(p, f, e, depth=0):
